@@ -31,7 +31,7 @@ type runRes struct {
 // normTag: a set_sum store's raw values carry a "set:"/"sum:" tag that depends on whether the value was last
 // written by a merge or by a block (known finding C01/set_sum-tag-visible-in-deltas); the digest of a deltas
 // input shows raw values, so the canonical answer normalises the tag (hex "7365743a" -> "73756d3a").
-func normTag(p []byte) []byte { return []byte(strings.ReplaceAll(string(p), "7365743a", "73756d3a")) }
+func normTag(p []byte) []byte { return sys.NormTag(p) }
 
 func nonEmptyRaw(r *sys.Result, norm bool) string {
 	var p []string
